@@ -348,24 +348,48 @@ func (ex *Exec) parseNum(kind string, s Str, w int) (*Term, *Term) {
 				if src.kind != KBV {
 					break
 				}
-				if src.w == w {
-					return src, tTrue
-				}
-				if src.w < w {
-					if o.kind == "int" {
-						return mkSExt(src, w), tTrue
-					}
-					return mkZExt(src, w), tTrue
-				}
-				// narrower target: in range iff round trip
-				lo := mkExtract(src, w-1, 0)
-				var back *Term
-				if kind == "int" {
-					back = mkSExt(lo, src.w)
+				// the text is the decimal rendering of src as a signed (o.kind
+				// "int") or unsigned ("uint") number; Parse{Int,Uint}(.., w)
+				// succeeds iff that number is in the range of the target
+				var v64 *Term
+				if o.kind == "int" {
+					v64 = mkSExt(src, 64)
 				} else {
-					back = mkZExt(lo, src.w)
+					v64 = mkZExt(src, 64)
 				}
-				return lo, mkEq(back, src)
+				if src.w == 64 {
+					v64 = src
+				}
+				var lo *Term
+				if w == 64 {
+					lo = v64
+				} else {
+					lo = mkExtract(v64, w-1, 0)
+				}
+				var ok *Term
+				switch {
+				case o.kind == "int" && kind == "int":
+					if w == 64 {
+						ok = tTrue
+					} else {
+						ok = mkEq(mkSExt(lo, 64), v64)
+					}
+				case o.kind == "uint" && kind == "uint":
+					if w == 64 {
+						ok = tTrue
+					} else {
+						ok = mkEq(mkZExt(lo, 64), v64)
+					}
+				case o.kind == "int" && kind == "uint":
+					// a negative number renders with '-' and is refused
+					ok = mkCmp(OpSLE, i64(0), v64)
+					if w < 64 {
+						ok = mkAnd(ok, mkEq(mkZExt(lo, 64), v64))
+					}
+				default: // unsigned text parsed as signed
+					ok = mkCmp(OpULE, v64, mkBV(64, uint64(1)<<uint(w-1)-1))
+				}
+				return lo, ok
 			case "float":
 				if src.kind == KFP {
 					return mkF2F(src, w), tTrue
